@@ -151,9 +151,10 @@ class HistoryMonitor:
             z, o = self.lost_lib.get(view, (None, None))
             if z is not None and p.shape == z.shape:
                 site = acls + ".afreq"
-                self.chk("C10.lost", bool(numpy.all(p[z] == 0.0)), (site, size_class(G.N)), "reported frequency stays exactly 0 once it was 0",
+                sz = G.icls if G.icls in STATEFUL_ICLS else size_class(G.N)
+                self.chk("C10.lost", bool(numpy.all(p[z] == 0.0)), (site, sz), "reported frequency stays exactly 0 once it was 0",
                          witness=lambda: self._w(G, view, "-", "-", afreq=p))
-                self.chk("C10.lost", bool(numpy.all(p[o] == 1.0)), (site, size_class(G.N)), "reported frequency stays exactly 1 once it was 1",
+                self.chk("C10.lost", bool(numpy.all(p[o] == 1.0)), (site, sz), "reported frequency stays exactly 1 once it was 1",
                          what="%s reported a frequency below 1 at a locus it had reported as fixed at 1 in an ancestor population (n=%d, ploidy=%d)"
                          % (site, G.n, G.ploidy), witness=lambda: self._w(G, view, "-", "-", afreq=p))
                 self.lost_lib[view] = (z | (p == 0.0), o | (p == 1.0))
